@@ -193,11 +193,18 @@ func TestCheckC25(t *testing.T) {
 	run := func(in *input, b string, class string) {
 		x := withBalancer(in, b)
 		p, err := runBalancer(x)
-		tag := ""
 		if class == "dup" {
-			tag = " [duplicate topic in a subscription list]"
+			// a list naming one topic twice is not a subscription in the
+			// property's sense (a set): generated, counted, not judged
+			r.Count("dontcare_duplicate_topic_plans", 1)
+			if err != nil {
+				r.Count("dontcare_duplicate_topic_no_plan", 1)
+			} else if v := checkValid(x, p); len(v.problems) > 0 || (len(v.unassigned) > 0 && b != "cooperative-sticky") {
+				r.Count("dontcare_duplicate_topic_invalid_plan_"+b, 1)
+			}
+			return
 		}
-		ok := judgeValidity(r, x, p, err, tag)
+		ok := judgeValidity(r, x, p, err, "")
 		r.Eval(1)
 		r.Count("plans_"+b, 1)
 		if nonTrivial(x) {
@@ -263,7 +270,7 @@ func TestCheckC25(t *testing.T) {
 		"partition counts handed to Balance are those of the topics the members named and that exist, as the leader builds them; topics nobody subscribes to are not passed",
 		"a withheld partition whose only claimants are below the group's highest generation is accepted (the code withholds for any claimant); counted in withheld_from_claimant_below_group_generation",
 		"kfake static members in the left (-2) state and regex subscriptions are not exercised",
-		"subscription lists naming one topic twice (a hostile or buggy peer) are generated for the client-side balancers as a separate class; their violations carry the suffix [duplicate topic in a subscription list]",
+		"subscription lists naming one topic twice (a hostile or buggy peer) are generated for the client-side balancers but not judged (a subscription is a set); invalid plans there are counted as dontcare_duplicate_topic_invalid_plan_<balancer>",
 	)
 }
 
